@@ -63,7 +63,7 @@ def decode_scenario(prop, cid, t, msg, dest_mode, defs, w=None, wv=None, label="
         steps.append({"op": "overwrite", "obj": 0, "byte": 238})
         steps.append({"op": "size", "ty": t, "obj": 0})
         steps.append({"op": "encode", "ty": t, "obj": 0, "buf": {"mode": "rel", "n": 0, "extra": 0}})
-        steps.append({"op": "decode", "ty": w, "from": 3, "dest": "fresh", "orig": len(vals) - 1})
+        steps.append({"op": "decode", "ty": w, "from": 3, "dest": "fresh", "orig": len(vals) - 1, "hops": 2})
     return {"sid": cid, "prop": prop, "vals": vals, "steps": steps, "tags": [label] + list(extra_tags), "dkey": cid}
 
 
@@ -109,6 +109,8 @@ def run(prop, tier, seed, work):
             pairs = [p for p in pairs if not p[2].startswith(("added-required", "all-required"))]
         per = (3 if quick else 10)
         batches.append(run_pairs(prop, tier, seed, work, res, defs, pairs, per, two_hop=(prop == "C11")))
+        if prop == "C11":
+            pairs_mc(work, res, defs, pairs, quick)
         if not quick:
             # further rounds: other retype choices, other value samples, other order / trail / destination assignments
             for r in range(1, 4):
@@ -123,6 +125,28 @@ def run(prop, tier, seed, work):
         batches.extend(defaults_batches(prop, tier, seed, work, res, quick, rng))
     suite.run_batches(res, work, batches)
     return suite.finish(res, RULES[prop], ASSUME)
+
+
+def pairs_mc(work, res, defs, pairs, quick):
+    """spec/PairsMC.tla: the two-hop theorem of the reference semantics on the schema pairs (values enumerated in TLA+)"""
+    import json
+    import os
+    sel = [(w, t) for (w, t, lbl) in pairs if (w in ("WIn", "WFx", "WScal") if quick else True)]
+    d = work.sub("pairsmc")
+    pp = os.path.join(d, "pairs.json")
+    json.dump([[w, t] for (w, t) in sel], open(pp, "w"))
+    defs_path = vlib.write_defs(work, defs)
+    out, st = vlib.tlc(d, "PairsMC", "INIT PInit\nNEXT PNext\nINVARIANT Forward\nINVARIANT TwoHop\nCHECK_DEADLOCK FALSE\n",
+                       env={"VERIF_DEFS": defs_path, "VERIF_PAIRS": pp}, workers=8, timeout=3000, heap="8g")
+    if st.get("exit") != 0 or "No error has been found" not in out:
+        keep = os.path.join(vlib.VERIF, "work", "last-pairsmc-failure.txt")
+        i = out.find("Error")
+        open(keep, "w").write(out[max(0, i - 300):i + 20000])
+        raise vlib.MachineryError("PairsMC: a schema-evolution theorem of the reference semantics fails (specification error); see " + keep)
+    res.tlc_states += st.get("distinct", 0)
+    res.tlc_transitions += st.get("generated", 0)
+    res.extra["pairs_model"] = {"module": "spec/PairsMC.tla", "theorems": ["Forward", "TwoHop"], "pairs": len(sel),
+                                "cases": st.get("distinct", 0), "result": "hold"}
 
 
 # ---- C09 -------------------------------------------------------------------------------------
